@@ -28,6 +28,8 @@ def group_of(key):
     if name == "WellFormed" or key in ("newMalformed", "unmarshalErr"):
         return {"wf", "wire_dec"} if key != "newMalformed" and name != "WellFormed" else {"wf"}
     if name == "width":
+        if recv in WIRE_TYPES:
+            return {"wiregen"}  # regenerated statement by statement (gen/GenWire.v, SyncWire.v)
         return {"skel"} if recv in PACKET_TYPES else {"wire_enc", "wire_dec"}
     if name in ENC_METHODS:
         if recv in WIRE_TYPES and name in ("fill", "fillProp", "fillOpt"):
@@ -66,18 +68,18 @@ PROP_GROUPS = {
 PROP_SYNC = {
     "C01": ["gen/GenConsts.v", "gen/SyncEnc.v", "gen/SyncDec.v", "gen/SyncMisc.v", "gen/SyncApi.v", "gen/SyncAcc.v", "gen/SyncWire.v", "gen/SyncWireDec.v", "gen/SyncBuf.v"],
     "C02": ["gen/GenConsts.v", "gen/SyncEnc.v", "gen/SyncMisc.v", "gen/SyncApi.v", "gen/SyncAcc.v", "gen/SyncWire.v"],
-    "C03": ["gen/GenConsts.v", "gen/SyncDec.v", "gen/SyncMisc.v", "gen/SyncAcc.v", "gen/SyncWireDec.v", "gen/SyncBuf.v"],
-    "C04": ["gen/SyncDec.v", "gen/SyncMisc.v", "gen/SyncWireDec.v", "gen/SyncBuf.v"],
-    "C05": ["gen/SyncDec.v", "gen/SyncMisc.v", "gen/SyncWireDec.v", "gen/SyncBuf.v"],
-    "C06": ["gen/SyncDec.v", "gen/SyncMisc.v", "gen/SyncWireDec.v", "gen/SyncBuf.v"],
-    "C07": ["gen/SyncDec.v", "gen/SyncMisc.v", "gen/SyncWireDec.v", "gen/SyncBuf.v"],
-    "C08": ["gen/SyncDec.v", "gen/SyncMisc.v", "gen/SyncWireDec.v", "gen/SyncBuf.v"],
-    "C09": ["gen/GenConsts.v", "gen/SyncDec.v", "gen/SyncMisc.v", "gen/SyncWireDec.v", "gen/SyncBuf.v"],
+    "C03": ["gen/GenConsts.v", "gen/SyncDec.v", "gen/SyncMisc.v", "gen/SyncAcc.v", "gen/SyncWireDec.v", "gen/SyncBuf.v", "gen/SyncWire.v"],
+    "C04": ["gen/SyncDec.v", "gen/SyncMisc.v", "gen/SyncWireDec.v", "gen/SyncBuf.v", "gen/SyncWire.v"],
+    "C05": ["gen/SyncDec.v", "gen/SyncMisc.v", "gen/SyncWireDec.v", "gen/SyncBuf.v", "gen/SyncWire.v"],
+    "C06": ["gen/SyncDec.v", "gen/SyncMisc.v", "gen/SyncWireDec.v", "gen/SyncBuf.v", "gen/SyncWire.v"],
+    "C07": ["gen/SyncDec.v", "gen/SyncMisc.v", "gen/SyncWireDec.v", "gen/SyncBuf.v", "gen/SyncWire.v"],
+    "C08": ["gen/SyncDec.v", "gen/SyncMisc.v", "gen/SyncWireDec.v", "gen/SyncBuf.v", "gen/SyncWire.v"],
+    "C09": ["gen/GenConsts.v", "gen/SyncDec.v", "gen/SyncMisc.v", "gen/SyncWireDec.v", "gen/SyncBuf.v", "gen/SyncWire.v"],
     "C10": ["gen/SyncEnc.v", "gen/SyncMisc.v", "gen/SyncString.v", "gen/SyncWire.v"],
     "C11": ["gen/SyncEnc.v", "gen/SyncMisc.v", "gen/SyncApi.v", "gen/SyncEffects.v", "gen/SyncWire.v"],
     "C12": ["gen/GenConsts.v", "gen/SyncEnc.v", "gen/SyncApi.v", "gen/SyncAcc.v", "gen/SyncWire.v"],
     "C13": ["gen/SyncEnc.v", "gen/SyncDec.v", "gen/SyncMisc.v", "gen/SyncEffects.v", "gen/SyncWire.v", "gen/SyncWireDec.v", "gen/SyncBuf.v"],
-    "C14": ["gen/SyncDec.v", "gen/SyncMisc.v", "gen/SyncEffects.v", "gen/SyncWireDec.v", "gen/SyncBuf.v"],
+    "C14": ["gen/SyncDec.v", "gen/SyncMisc.v", "gen/SyncEffects.v", "gen/SyncWireDec.v", "gen/SyncBuf.v", "gen/SyncWire.v"],
     "C15": ["gen/SyncWire.v", "gen/SyncWireDec.v", "gen/SyncBuf.v"],
     "C16": ["gen/GenConsts.v", "gen/SyncEnc.v", "gen/SyncDec.v", "gen/SyncMisc.v", "gen/SyncAcc.v", "gen/SyncWire.v", "gen/SyncWireDec.v", "gen/SyncBuf.v"],
     "C17": ["gen/SyncString.v", "gen/SyncAcc.v", "gen/SyncWf.v"],
